@@ -91,7 +91,7 @@ MANIFEST = dict(
              "including goroutines recording failures at once, compared at rest.",
         note="Trusted: Lean kernel, extractor, harness/comparison, net.ParseIP; unbounded-Int time; mutex sections atomic. "
              "The stale write-back of CheckBruteforce (a failure recorded between its read and its pruned write-back "
-             "was lost) was reproduced on the real code and repaired in /repo 8fa3850; the split program survives "
+             "was lost) was reproduced on the real code and repaired in /repo ab87e57; the split program survives "
              "as a proved counter-example only.",
         technique="Lean 4 proof (refinement of the entry-list model to a counting spec by induction over op lists; "
                   "invariant over all schedules of the regenerated critical sections) + regenerated constants and "
